@@ -64,13 +64,21 @@ def random_style(rng, Style):
         if r < 0.8:
             return "color(%d)" % rng.choice([0, 7, 8, 15, 16, 17, 231, 232, 255, rng.randrange(256)])
         return "#%02x%02x%02x" % tuple(rng.choice([0, 1, 95, 128, 254, 255, rng.randrange(256)]) for _ in range(3))
-    link = rng.choice([None, None, None, "https://example.org/a", "https://example.org/b?x=1"])
+    link = rng.choice([None, None, None, "https://example.org/a", "https://example.org/b?x=1", "https://example.org/c?q=rich;lang=en&x=%20#frag",
+                       "file:///tmp/a b;c"])
     return Style(color=col(), bgcolor=col(), link=link, **kw)
+
+
+class TtyFile(io.StringIO):
+    """A file that claims to be a terminal: force_terminal=False must still win."""
+
+    def isatty(self):
+        return True
 
 
 def make_console(cfg):
     from rich.console import Console
-    f = io.StringIO()
+    f = TtyFile() if cfg.get("tty") else io.StringIO()
     cs = None if cfg["system"] == "none" else cfg["system"]
     c = Console(file=f, force_terminal=cfg["terminal"], color_system=cs, width=400, no_color=cfg["nocolor"], legacy_windows=cfg["legacy"],
                 _environ={}, highlight=False)
@@ -130,7 +138,8 @@ def random_case(rng, Style):
     for _ in range(rng.randint(1, 4)):
         system = rng.choice(SYSTEMS)
         legacy = rng.random() < 0.15 and system != "none"
-        cfgs.append(dict(system="windows" if legacy else system, nocolor=rng.random() < 0.15, terminal=rng.random() < 0.8, legacy=legacy))
+        cfgs.append(dict(system="windows" if legacy else system, nocolor=rng.random() < 0.15, terminal=rng.random() < 0.8, legacy=legacy,
+                         tty=rng.random() < 0.3))
     return segs, cfgs
 
 
@@ -144,7 +153,7 @@ def run_cases(chk, n, only_decoder=False):
     for _ in range(n):
         segs, cfgs = random_case(chk.rng, Style)
         if only_decoder:
-            cfgs = [dict(system="truecolor", nocolor=False, terminal=True, legacy=False)]
+            cfgs = [dict(system="truecolor", nocolor=False, terminal=True, legacy=False, tty=False)]
             segs = [sg for sg in segs if not sg[2]] or [("a", None, False)]     # styled text only: control codes are not text
         links = {}
         for i, cfg in enumerate(cfgs):
@@ -168,7 +177,7 @@ def judge(chk, recs, meta, label, prefix=""):
                 continue        # the decoder clause is C19's
             cfg = cfgs[i]
             reused = i > 0 and any(c["system"] != cfg["system"] for c in cfgs[:i])
-            sig = "%s system=%s nocolor=%s terminal=%s legacy=%s%s" % (v, cfg["system"], cfg["nocolor"], cfg["terminal"], cfg["legacy"],
+            sig = "%s system=%s nocolor=%s terminal=%s%s legacy=%s%s" % (v, cfg["system"], cfg["nocolor"], cfg["terminal"], "(tty file)" if cfg.get("tty") else "", cfg["legacy"],
                                                                      " style-reused-after-other-system" if reused else "")
             chk.reject(sig, v, dict(part=prefix or "encoder", segments=[(t, None if s is None else repr_style(s), ctl) for t, s, ctl in segs], consoles=cfgs[:i + 1]))
     return verdicts
